@@ -23,6 +23,8 @@ type Stream struct {
 	Trace func(pos int, n int, v int, label string)
 	// Overrun counts draws past the end of the replay vector.
 	Overrun int
+	// prefix: values to play back before continuing (Rewind).
+	prefix []uint32
 }
 
 // New returns a recording search stream for (seed, run).
@@ -43,7 +45,9 @@ func (s *Stream) Draw(n int, label string) int {
 		return 0
 	}
 	var v int
-	if s.replayMode {
+	if s.pos < len(s.prefix) {
+		v = int(s.prefix[s.pos] % uint32(n))
+	} else if s.replayMode {
 		if s.pos < len(s.replay) {
 			v = int(s.replay[s.pos] % uint32(n))
 		} else {
@@ -97,6 +101,18 @@ func (s *Stream) Perm(n int, label string) []int {
 		p[i], p[j] = p[j], p[i]
 	}
 	return p
+}
+
+// Rewind restarts the stream: the values drawn so far are played back first,
+// then the stream continues as before (generator or replay vector). A harness
+// uses it to re-execute the identical run after changing something outside
+// the choice space.
+func (s *Stream) Rewind() {
+	if len(s.rec) > len(s.prefix) {
+		s.prefix = append([]uint32(nil), s.rec...)
+	}
+	s.rec = s.rec[:0]
+	s.pos = 0
 }
 
 // Recorded returns the values drawn so far.
